@@ -1,0 +1,105 @@
+//go:build verif
+
+// Machine-checked contracts for package wal, consumed by /verif/bin/walvc.
+// This file contains no code.
+
+package wal
+
+// ---------------------------------------------------------------------------
+// codec.go — BinaryCodec against the stream
+//   uvarint(Index) uvarint(Term) uvarint(Type) uvarint(len Data) Data
+//   uvarint(len Extensions) Extensions time.MarshalBinary(AppendedAt)
+// ---------------------------------------------------------------------------
+
+//@ predicate o1(o, l) = o + uvlen(l.Index)
+//@ predicate o2(o, l) = o1(o, l) + uvlen(l.Term)
+//@ predicate o3(o, l) = o2(o, l) + uvlen(uint64(l.Type))
+//@ predicate o4(o, l) = o3(o, l) + uvlen(uint64(len(l.Data)))
+//@ predicate o5(o, l) = o4(o, l) + len(l.Data)
+//@ predicate o6(o, l) = o5(o, l) + uvlen(uint64(len(l.Extensions)))
+//@ predicate o7(o, l) = o6(o, l) + len(l.Extensions)
+//@ predicate Enc(s, o, l) = isuv(s, o, l.Index) && isuv(s, o1(o, l), l.Term) && isuv(s, o2(o, l), uint64(l.Type))
+//@    && isuv(s, o3(o, l), uint64(len(l.Data))) && eqbytes(s, o4(o, l), l.Data, 0, len(l.Data))
+//@    && isuv(s, o5(o, l), uint64(len(l.Extensions))) && eqbytes(s, o6(o, l), l.Extensions, 0, len(l.Extensions))
+//@    && istime(s, o7(o, l), l.AppendedAt)
+
+//@ func (*encoder).varint
+//@   props C12
+//@   requires e.w != nil
+//@   assigns e.err, mem(e.scratch), e.w.size, e.w.data[e.w.size:e.w.size+10]
+//@   ensures old(e.err) != nil ==> e.err == old(e.err) && e.w.size == old(e.w.size)
+//@   ensures[C12.enc-varint] old(e.err) == nil && e.err == nil ==> e.w.size == old(e.w.size) + uvlen(v) && isuv(e.w.data, old(e.w.size), v)
+//@   ensures e.w.size >= old(e.w.size) && e.w.size <= old(e.w.size) + 10
+
+//@ func (*encoder).bytes
+//@   props C12
+//@   requires e.w != nil
+//@   assigns e.err, mem(e.scratch), e.w.size, e.w.data[e.w.size:e.w.size+10+len(bs)]
+//@   ensures old(e.err) != nil ==> e.err == old(e.err) && e.w.size == old(e.w.size)
+//@   ensures[C12.enc-bytes] old(e.err) == nil && e.err == nil ==> e.w.size == old(e.w.size) + uvlen(uint64(len(bs))) + len(bs)
+//@      && isuv(e.w.data, old(e.w.size), uint64(len(bs))) && eqbytes(e.w.data, old(e.w.size) + uvlen(uint64(len(bs))), bs, 0, len(bs))
+//@   ensures e.w.size >= old(e.w.size) && e.w.size <= old(e.w.size) + 10 + len(bs)
+
+//@ func (*encoder).time
+//@   props C12
+//@   requires e.w != nil
+//@   assigns e.err, e.w.size, e.w.data[e.w.size:e.w.size+16]
+//@   ensures old(e.err) != nil ==> e.err == old(e.err) && e.w.size == old(e.w.size)
+//@   ensures[C12.enc-time] old(e.err) == nil && e.err == nil ==> e.w.size == old(e.w.size) + tmlen(t) && istime(e.w.data, old(e.w.size), t)
+//@   ensures e.w.size >= old(e.w.size) && e.w.size <= old(e.w.size) + 16
+
+//@ func (*BinaryCodec).Encode
+//@   props C12
+//@   requires l != nil && w != nil
+//@   assigns w.size, w.data[w.size:0x7fffffffffffffff]
+//@   ensures[C12.enc-size] result == nil ==> w.size == o7(old(w.size), l) + tmlen(l.AppendedAt)
+//@   ensures[C12.enc-index] result == nil ==> isuv(w.data, old(w.size), l.Index)
+//@   ensures[C12.enc-term] result == nil ==> isuv(w.data, o1(old(w.size), l), l.Term)
+//@   ensures[C12.enc-type] result == nil ==> isuv(w.data, o2(old(w.size), l), uint64(l.Type))
+//@   ensures[C12.enc-datalen] result == nil ==> isuv(w.data, o3(old(w.size), l), uint64(len(l.Data)))
+//@   ensures[C12.enc-data] result == nil ==> eqbytes(w.data, o4(old(w.size), l), l.Data, 0, len(l.Data))
+//@   ensures[C12.enc-extlen] result == nil ==> isuv(w.data, o5(old(w.size), l), uint64(len(l.Extensions)))
+//@   ensures[C12.enc-ext] result == nil ==> eqbytes(w.data, o6(old(w.size), l), l.Extensions, 0, len(l.Extensions))
+//@   ensures[C12.enc-time] result == nil ==> istime(w.data, o7(old(w.size), l), l.AppendedAt)
+//@   ensures w.size >= old(w.size)
+
+//@ func (*decoder).varint
+//@   props C11 C12
+//@   ghostparam gv uint64
+//@   assigns reslice(d.buf), d.err
+//@   ensures old(d.err) != nil ==> result == 0 && sameslice(d.buf, old(d.buf)) && d.err == old(d.err)
+//@   ensures[C12.dec-varint] old(d.err) == nil && isuv(old(d.buf), 0, gv) && uvlen(gv) <= old(len(d.buf)) ==> result == gv && d.err == nil && sameslice(d.buf, old(d.buf)[uvlen(gv):])
+//@   ensures[C11.dec-varint-shrinks] sameregion(d.buf, old(d.buf)) && len(d.buf) <= old(len(d.buf))
+
+//@ func (*decoder).bytes
+//@   props C11 C12
+//@   ghostparam gn uint64
+//@   ghostarg (*decoder).varint 1 gv = gn
+//@   assigns reslice(d.buf), d.err
+//@   alloc_bound[C11.dec-bytes-alloc] old(len(d.buf))
+//@   ensures[C12.no-alias] result == nil || fresh(result)
+//@   ensures[C12.dec-bytes] old(d.err) == nil && isuv(old(d.buf), 0, gn) && uvlen(gn) <= old(len(d.buf)) && gn <= uint64(old(len(d.buf)) - uvlen(gn)) ==>
+//@        d.err == nil && len(result) == int(gn) && eqbytes(result, 0, old(d.buf), uvlen(gn), int(gn)) && sameslice(d.buf, old(d.buf)[uvlen(gn)+int(gn):])
+//@   ensures old(d.err) != nil ==> result == nil && d.err == old(d.err)
+//@   ensures[C11.dec-bytes-shrinks] sameregion(d.buf, old(d.buf)) && len(d.buf) <= old(len(d.buf))
+
+//@ func (*decoder).time
+//@   props C11 C12
+//@   assigns d.err
+//@   ensures old(d.err) != nil ==> d.err == old(d.err)
+
+//@ func (*BinaryCodec).Decode
+//@   props C11 C12
+//@   ghostparam g *raft.Log
+//@   ghostarg (*decoder).varint 1 gv = g.Index
+//@   ghostarg (*decoder).varint 2 gv = g.Term
+//@   ghostarg (*decoder).varint 3 gv = uint64(g.Type)
+//@   ghostarg (*decoder).bytes 1 gn = uint64(len(g.Data))
+//@   ghostarg (*decoder).bytes 2 gn = uint64(len(g.Extensions))
+//@   requires l != nil
+//@   assigns l.Index, l.Term, l.Type, l.Data, l.Extensions, l.AppendedAt
+//@   ensures[C12.no-alias] (l.Data == nil || fresh(l.Data)) && (l.Extensions == nil || fresh(l.Extensions))
+//@   ensures[C12.roundtrip-scalars] g != nil && Enc(bs, 0, g) && len(bs) == o7(0, g) + tmlen(g.AppendedAt) ==> l.Index == g.Index && l.Term == g.Term && l.Type == g.Type
+//@   ensures[C12.roundtrip-data] g != nil && Enc(bs, 0, g) && len(bs) == o7(0, g) + tmlen(g.AppendedAt) ==> len(l.Data) == len(g.Data) && eqbytes(l.Data, 0, g.Data, 0, len(g.Data))
+//@   ensures[C12.roundtrip-ext] g != nil && Enc(bs, 0, g) && len(bs) == o7(0, g) + tmlen(g.AppendedAt) ==> len(l.Extensions) == len(g.Extensions) && eqbytes(l.Extensions, 0, g.Extensions, 0, len(g.Extensions))
+//@   ensures[C12.roundtrip-time] g != nil && Enc(bs, 0, g) && len(bs) == o7(0, g) + tmlen(g.AppendedAt) ==> result == nil && l.AppendedAt == g.AppendedAt
